@@ -492,6 +492,28 @@ class ExecMixin(object):
                 for k in E.dkeys(d.ty.key, d.ty.val):
                     out.append((k, d.z))
                 return out
+            if fn == 'elems_of':
+                # every list / dict that is an element of the list e (e: list of lists / list of dicts)
+                outer = self.spec_eval(node.args[0], st, sctx)
+                inner = outer.ty.elem
+                member = ('member', outer.z, self.list_len(st, outer), self.list_arr(st, outer))
+                if isinstance(inner, ListT):
+                    el = inner.elem
+                    out += [(E.lkey(el), member), (E.ekey(el), member)]
+                    if el in (STR, BYTES):
+                        out.append((self.ghost_key('joined', z3.StringSort()), member))
+                    if el == INT:
+                        out.append((self.ghost_key('sum', z3.IntSort()), member))
+                else:
+                    for kk in E.dkeys(inner.key, inner.val):
+                        out.append((kk, member))
+                return out
+            if fn == 'alldicts':
+                # every dict of the type of e (whole maps)
+                d = self.spec_eval(node.args[0], st, sctx)
+                for k in E.dkeys(d.ty.key, d.ty.val):
+                    out.append((k, None))
+                return out
             if fn == 'ghost':
                 o = self.spec_eval(node.args[0], st, sctx)
                 name = node.args[1].value
@@ -540,6 +562,18 @@ class ExecMixin(object):
     def apply_havoc(self, st, locs, tag='hv'):
         for key, ref in locs:
             arr = st.hget(key)
+            if isinstance(ref, tuple) and ref[0] == 'member':
+                # only the entries of the objects that are elements of the given list may change
+                _, outer, n, oarr = ref
+                na = fresh(tag + '!' + E.key_name(key), arr.sort())
+                r = fresh('r', z3.IntSort())
+                j = fresh('j', z3.IntSort())
+                st.assume(z3.ForAll([r], z3.Or(z3.Exists([j], z3.And(0 <= j, j < n, z3.Select(oarr, j) == r)),
+                                               z3.Select(na, r) == z3.Select(arr, r)), patterns=[z3.Select(na, r)]))
+                st.hset(key, na)
+                if key[0] in ('elems', 'dval'):
+                    st.havoc_vals = st.havoc_vals + [(z3.Select(na, fresh('any', z3.IntSort())), st.alloc + st.nalloc)]
+                continue
             if ref is None:
                 na = fresh(tag + '!' + E.key_name(key), arr.sort())
                 st.hset(key, na)
@@ -572,12 +606,19 @@ class ExecMixin(object):
             if any(r is None for r in refs):
                 continue
             r = fresh('frame!r', z3.IntSort())
-            hyp = [r > 0, r < limit] + [r != x for x in refs]
+            hyp = [r > 0, r < limit]
+            for x in refs:
+                if isinstance(x, tuple) and x[0] == 'member':
+                    j = fresh('j', z3.IntSort())
+                    hyp.append(z3.ForAll([j], z3.Implies(z3.And(0 <= j, j < x[2]), z3.Select(x[3], j) != r), patterns=[z3.Select(x[3], j)]))
+                else:
+                    hyp.append(r != x)
             conj.append((key, z3.Implies(z3.And(hyp), z3.Select(a1, r) == z3.Select(a0, r))))
         return conj
 
     def check_invariants(self, ctx, st, spec, k, phase, entry_state):
         sctx = self.spec_ctx(ctx, old_state=entry_state, bound=ctx.bound)
+        sctx.loop_entry_state = getattr(ctx, 'loop_entry', {}).get(k)
         for i, inv in enumerate(spec.invariants):
             try:
                 g = self.spec_bool(inv, st, sctx)
@@ -600,6 +641,7 @@ class ExecMixin(object):
 
     def assume_invariants(self, ctx, st, spec, k, entry_state):
         sctx = self.spec_ctx(ctx, old_state=entry_state, bound=ctx.bound)
+        sctx.loop_entry_state = getattr(ctx, 'loop_entry', {}).get(k)
         for inv in spec.invariants:
             st.assume(self.spec_bool(inv, st, sctx))
 
@@ -609,11 +651,17 @@ class ExecMixin(object):
         if spec is None:
             raise Unsupported('loop %d of %s has no invariant in the sidecar' % (k, ctx.contract.target if ctx.contract else '?'))
         entry_state = getattr(ctx, 'pre_state', None)
+        if not hasattr(ctx, 'loop_entry'):
+            ctx.loop_entry = {}
+        ctx.loop_entry[k] = st.fork()              # entry(e) in invariants / step clauses of this loop: e when the loop was entered
         # 1. invariant holds on entry
         self.check_invariants(ctx, st, spec, k, 'init', entry_state)
         # 2. havoc
         hv = st.fork()
         loop_limit = st.alloc + st.nalloc          # everything below existed when the loop was entered
+        if not hasattr(ctx, 'loop_entry'):
+            ctx.loop_entry = {}
+        ctx.loop_entry[k] = st.fork()              # entry(e) in invariants / step clauses of this loop: e when the loop was entered
         # earlier iterations may have allocated objects: the allocation counter moves to an unknown later point
         na = fresh('alloc', z3.IntSort())
         hv.assume(na >= st.alloc + st.nalloc)
@@ -936,6 +984,11 @@ class ExecMixin(object):
 
     def narrow(self, ctx, st, a, ty, what):
         """Coerce an actual argument to a parameter type; a Val narrowed to one variant must carry that tag."""
+        if a.ty == VAL and is_reflike(ty) and not ctx.spec:
+            ok = z3.Or(Val.is_vref(a.z), Val.is_vnone(a.z))
+            self.emit(ctx, st, 'pre@call', what + '.type', ok, note='argument must be an object reference (%r)' % (ty,))
+            st.assume(ok)
+            return self.coerce(a, ty)
         if a.ty == VAL and ty != VAL and not ctx.spec:
             tag = {INT: Val.is_vint, BYTES: Val.is_vbyt, STR: Val.is_vtxt, BOOL: Val.is_vbool, FLOAT: Val.is_vflt}.get(ty)
             if tag is None:
@@ -1010,6 +1063,11 @@ class ExecMixin(object):
             s_ex = pre.fork()
             if cond is not None:
                 s_ex.assume(self.spec_bool(cond, s_ex, callee_ctx))
+            if not c.pure:
+                na_x = fresh('alloc', z3.IntSort())
+                s_ex.assume(na_x >= s_ex.alloc + s_ex.nalloc)
+                s_ex.alloc = na_x
+                s_ex.nalloc = 0
             self.apply_havoc(s_ex, locs, 'exhv')
             ectx = Ctx(self, c, fi, spec=True)
             ectx.bound = bound
@@ -1022,13 +1080,14 @@ class ExecMixin(object):
         # normal exit
         for cls, cond in c.must_raise:
             st.assume(z3.Not(self.spec_bool(cond, pre.fork(), callee_ctx)))
-        self.apply_havoc(st, locs, 'chv')
-        # the callee may allocate: the allocation counter moves to an unknown later point
+        # the callee may allocate: the allocation counter moves to an unknown later point (before the havoc, so that the
+        # havocked locations may refer to objects the callee allocated)
         if not c.pure:
             na = fresh('alloc', z3.IntSort())
             st.assume(na >= st.alloc + st.nalloc)
             st.alloc = na
             st.nalloc = 0
+        self.apply_havoc(st, locs, 'chv')
         res = None
         if c.returns is not None and c.returns != NONE:
             rz = fresh('ret!' + c.target.rsplit('.', 1)[-1], sort_of(c.returns))
@@ -1049,6 +1108,9 @@ class ExecMixin(object):
             for ens in enss:
                 st.assume(z3.Implies(w, self.spec_bool(ens, st, callee_ctx)))
         if not self.feasible(st):
+            # the assumed postcondition contradicts what is known on this path: report it (a contradictory contract would make
+            # every later obligation on the path vacuous)
+            self.warnings.append('postcondition of %s is infeasible at a call in %s' % (c.name, ctx.contract.name if ctx.contract else '?'))
             return
         yield st, res
 
